@@ -113,8 +113,9 @@ def strLit? : E → Option String
   | lit (.str s) => some s
   | _ => none
 
-/-- the first token written for `e` is the `!` of `!<number or string literal>`.  Directly after `<` or `<<` the Go
-    printer takes the `<!--` branch (`isLtNot`) and skips the `!5 → !1` rewrite; that context is outside the model -/
+/-- the first token written for `e` may be the `!` of `!<number or string literal>`.  Directly after `<` or `<<` the Go
+    printer takes the `<!--` branch (`isLtNot`) and skips the `!5 → !1` rewrite; that context is outside the model.
+    A conditional may be folded to one of its parts (`(1000?!12000:a)` is printed as `!12e3` there): any part counts -/
 def startsNotLit : E → Bool
   | unary .not (lit (.num _)) => true
   | unary .not (lit (.str _)) => true
@@ -124,6 +125,8 @@ def startsNotLit : E → Bool
   | dot x _ => startsNotLit x
   | index x _ => startsNotLit x
   | group x => startsNotLit x
+  | .cond c x y => startsNotLit c || startsNotLit x || startsNotLit y
+  | opt _ e => startsNotLit e
   | _ => false
 
 /-- the literal cases of `!x`: `!"" → !0`, `!"s" → !1`, `!5 → !1` -/
@@ -132,6 +135,28 @@ def notLit (x : E) : Option E :=
   | lit (.str s) => some (unary .not (lit (.num (if s == "" then 0 else 1))))
   | lit (.num n) => some (unary .not (lit (.num (if n == 0 then 0 else 1))))
   | _ => none
+
+/-- the member / index / call cases of `minifyExpr` (`DotExpr`, `IndexExpr`, `CallExpr`) -/
+def descLink (rec : E → Prec → Option E) (e1 : E) (p : Prec) : Option E :=
+    match e1 with
+    | dot x name =>
+      match dotNumObj x with
+      | some n => if n < 1000 then some (dot (lit (.num n)) name) else none
+      | none => (rec x (if opMember ≤ p then opMember else opCall)).map (fun x' => dot x' name)
+    | index x y =>
+      match rec x (if p < opMember then opCall else opMember) with
+      | none => none
+      | some x' =>
+        match strLit? y with
+        | some s =>
+          if s != "" && s.toList.all Char.isAlpha then some (dot x' s)   -- a["b"] → a.b
+          else (rec y opExpr).map (index x')
+        | none => (rec y opExpr).map (index x')
+    | call f args =>
+      match rec f opCall, mapO (fun a => rec a opAssign) args with
+      | some f', some args' => some (call f' args')
+      | _, _ => none
+    | _ => none
 
 /-- one step of `minifyExpr` below the node rewriter: `rec` is the recursive call on the children -/
 def descend (rw : E → Prec → Option E) (rec : E → Prec → Option E) (e1 : E) (p : Prec) : Option E :=
@@ -164,30 +189,26 @@ def descend (rw : E → Prec → Option E) (rec : E → Prec → Option E) (e1 :
         match (if op == .not then notLit x else none) with
         | some r => some r
         | none => (rec x op.argPrec).map (unary op)
-    | dot x name =>
-      match dotNumObj x with
-      | some n => if n < 1000 then some (dot (lit (.num n)) name) else none
-      | none => (rec x (if opMember ≤ p then opMember else opCall)).map (fun x' => dot x' name)
-    | index x y =>
-      match rec x (if p < opMember then opCall else opMember) with
-      | none => none
-      | some x' =>
-        match strLit? y with
-        | some s =>
-          if s != "" && s.toList.all Char.isAlpha then some (dot x' s)   -- a["b"] → a.b
-          else (rec y opExpr).map (index x')
-        | none => (rec y opExpr).map (index x')
+    | dot x name => descLink rec (dot x name) p
+    | index x y => descLink rec (index x y) p
     | group x =>
       match groupInner rw x with
       | none => none
       | some x1 =>
         let pi := x1.prec
-        if p ≤ pi || (pi == opCoalesce && p == opBitOr) then rec x1 p
+        -- in the position of a member/call object (`p` above `OpLHS`) the Go code optimizes the conditional without the
+        -- optional-chaining rewrite: that variant is outside the model
+        if opLHS < p && x1.isOpt then none
+        else if p ≤ pi || (pi == opCoalesce && p == opBitOr) then rec x1 p
         else (rec x1 opExpr).map group
-    | call f args =>
-      match rec f opCall, mapO (fun a => rec a opAssign) args with
-      | some f', some args' => some (call f' args')
-      | _, _ => none
+    | call f args => descLink rec (call f args) p
+    | opt a e =>
+      -- the chain produced by `a==null?undefined:a.b.c ⇒ a?.b.c`: printed like the chain itself (the `Optional` flag
+      -- of the innermost link only changes its punctuator).  In the position of a member/call object (`p` above
+      -- `OpLHS`) the Go code drops the parentheses around the chain and so extends it (K-C01-10): outside the model
+      if opLHS < p then none
+      else if a == "undefined" || a == "NaN" || unmodelledNames.contains a then none
+      else if e.chainVar? == some a then (descLink rec e p).map (opt a) else none
     | .cond c x y =>
       match rec c opCoalesce, rec x opAssign, rec y opAssign with
       | some c', some x', some y' => some (E.cond c' x' y')
@@ -224,6 +245,7 @@ def size : E → Nat
   | dot x _ => 1 + size x
   | index x y => 1 + size x + size y
   | group x => 1 + size x
+  | opt _ e => 1 + size e
 def sizeL : List E → Nat
   | [] => 0
   | a :: t => size a + sizeL t
